@@ -30,10 +30,13 @@ class Site:
         self.start = '/'
         self.inputs = 0          # N further input URLs /u0 .. /u(N-1) on the command line (a long --input-file)
 
-    def to_server(self):
+    def to_server(self, run_index=0):
         out = {}
         for path, p in self.pages.items():
             k = p['kind']
+            if k == 'flaky':
+                # a server-side outage that is over by the time the command is run again
+                k = 'error' if run_index == 0 else 'leaf'
             if k == 'html':
                 body = html([r for r, i in p['links'] if not i], [r for r, i in p['links'] if i], meta=p.get('meta'))
                 out[path] = Page(200, body, delay=p.get('delay'))
@@ -186,6 +189,15 @@ def gen_site(rng, size=None, redirects=True, inline=True, offsite=True, deep=Fal
 
 
 def gen_options(rng, levelfree=False):
+    o = _gen_options(rng, levelfree)
+    if rng.random() < 0.2:
+        o['input_file'] = True
+    if rng.random() < 0.15:
+        o['quota'] = rng.choice(['inf', '0'])
+    return o
+
+
+def _gen_options(rng, levelfree=False):
     o = {'recursive': True, 'level': None, 'page_requisites': rng.random() < 0.5, 'no_parent': rng.random() < 0.25,
          'accept_regex': None, 'reject_regex': None}
     if not levelfree and rng.random() < 0.35:
@@ -212,6 +224,10 @@ def option_argv(o):
         a += ['--reject-regex', o['reject_regex']]
     if o.get('tries'):
         a += ['--tries', str(o['tries'])]
+    if o.get('timestamping'):
+        a.append('-N')
+    if o.get('quota'):
+        a += ['--quota', o['quota']]          # 'inf' / '0': no quota, spelled out
     return a
 
 
@@ -226,7 +242,8 @@ def norm(base, raw):
 
 
 class RefCrawl:
-    def __init__(self, site, opts, tries=2, max_redirects=20, start_hosts=(HOST,)):
+    def __init__(self, site, opts, tries=2, max_redirects=20, start_hosts=(HOST,), run_index=0):
+        self.run_index = run_index
         self.root = 'http://%s%s' % (HOST, site.start)      # single start URL: every record's root
         self.site = site
         self.o = opts
@@ -238,7 +255,10 @@ class RefCrawl:
         u = urllib.parse.urlsplit(url)
         if u.hostname == HOST and u.scheme == 'http' and (u.port or 80) == 80:
             path = u.path + ('?' + u.query if u.query else '')
-            return self.site.pages.get(path, {'kind': 'missing'})
+            p = self.site.pages.get(path, {'kind': 'missing'})
+            if p['kind'] == 'flaky':
+                return {'kind': 'error'} if self.run_index == 0 else {'kind': 'leaf'}
+            return p
         if u.hostname == OTHER:
             return {'kind': 'offsite'}
         return {'kind': 'missing'}
@@ -472,6 +492,8 @@ def trace_to_events(events, ids, ref, first_run=True):
                         out.append('o=%d' % ids(nxt['got']))
                         current_out[nxt['got']] = nxt
                     i += 1
+                elif e['status'] == 'todo' and i + 1 == n:
+                    pass      # killed between get_item's two queries (to-do missed, error rows not asked for yet)
                 else:
                     out.append('n')
             else:
@@ -535,7 +557,7 @@ def rows_canon(rows, ids):
 
 # ------------------------------------------------------------------ running the real application with a merged trace
 def run_real(site, opts, seed, concurrent, start_urls=None, workdir=None, db=None, kill_at=None, first_run=True,
-             extra=(), event_sink=None, on_request=None):
+             extra=(), event_sink=None, on_request=None, run_index=0):
     """Run the real crawler; returns (CrawlResult, merged events).
     `event_sink(ev)` is called for every merged event as it happens (kill runs log to a file)."""
     import wpull.processor.web as pw
@@ -576,11 +598,24 @@ def run_real(site, opts, seed, concurrent, start_urls=None, workdir=None, db=Non
     ps.ItemSession.finish = tagged(orig_finish, 'finish')
     ps.ItemSession.set_status = tagged(orig_set_status, 'status')
     ps.ItemSession.skip = tagged(orig_skip, 'status')
+    urls = start_urls or ['http://%s%s' % (HOST, site.start)]
+    xargs = list(option_argv(opts)) + list(extra)
+    tmp_input = None
+    if opts.get('input_file'):
+        # the start URLs come from --input-file instead of the command line
+        import tempfile
+        fd, tmp_input = tempfile.mkstemp(prefix='wpull-verif-input-', suffix='.txt')
+        os.write(fd, ('\n'.join(urls) + '\n').encode())
+        os.close(fd)
+        xargs += ['--input-file', tmp_input]
+        urls = []
     try:
-        res = appsim.run_crawl(start_urls or ['http://%s%s' % (HOST, site.start)], site.to_server(), seed=seed,
-                               concurrent=concurrent, extra=list(option_argv(opts)) + list(extra),
+        res = appsim.run_crawl(urls, site.to_server(run_index), seed=seed,
+                               concurrent=concurrent, extra=xargs,
                                on_table_event=on_table, workdir=workdir, keep_db=db, on_request=on_request)
     finally:
+        if tmp_input:
+            os.unlink(tmp_input)
         pw.WebProcessorSession._fetch_one = orig_fetch_one
         ps.ItemSession.finish = orig_finish
         ps.ItemSession.set_status = orig_set_status
